@@ -95,6 +95,19 @@ def rename(t, n, mapping):
     return compose(t, n, {j: var(n, k) for j, k in mapping.items()})
 
 
+def widen(t, n, m):
+    """Table of the same function over m >= n variables (the first n
+    indices keep their meaning)."""
+    if m == n:
+        return t
+    r = 0
+    mask = (1 << n) - 1
+    for i in range(1 << m):
+        if (t >> (i & mask)) & 1:
+            r |= 1 << i
+    return r
+
+
 def popcount(t):
     return bin(t).count('1')
 
